@@ -5,6 +5,7 @@ package main
 
 import (
 	"go/types"
+	"strings"
 
 	"golang.org/x/tools/go/ssa"
 )
@@ -77,7 +78,33 @@ func (g *Gen) closureEffects(fn *ssa.Function, depth int) closureEffect {
 				md, mv, ks, vs := g.mapHeaps(mt)
 				ce.heaps[md] = "(Array Int (Array " + ks + " Bool))"
 				ce.heaps[mv] = "(Array Int (Array " + ks + " " + vs + "))"
-			case *ssa.MakeClosure, *ssa.Go, *ssa.Defer, *ssa.Send:
+			case *ssa.MakeClosure:
+				// nested closure: its effects count when it is passed on to a callsback callee; conservative: merge them
+				nfn := x.Fn.(*ssa.Function)
+				ne := g.closureEffects(nfn, depth+1)
+				if ne.wild {
+					ce.wild = true
+				}
+				for h, srt := range ne.heaps {
+					ce.heaps[h] = srt
+				}
+				if ne.allocs {
+					ce.allocs = true
+				}
+				for i := range ne.cells {
+					// a cell of the nested closure is bound to a value of this closure
+					if i < len(x.Bindings) {
+						switch b := x.Bindings[i].(type) {
+						case *ssa.FreeVar:
+							ce.cells[fvIdx[b]] = true
+						case *ssa.Alloc:
+							// local of this closure: invisible to the caller
+						default:
+							ce.wild = true
+						}
+					}
+				}
+			case *ssa.Go, *ssa.Defer, *ssa.Send:
 				ce.wild = true
 			case *ssa.Call:
 				ci := g.resolveCallee(x.Common())
@@ -117,10 +144,59 @@ func (g *Gen) closureEffects(fn *ssa.Function, depth int) closureEffect {
 					continue
 				}
 				if con := g.P.cs.Funcs[ci.key]; con != nil {
-					if con.Pure || (con.Assumed && len(con.Modifies) == 0) {
+					if con.Pure || (con.Assumed && len(con.Modifies) == 0 && !con.CallsBack) {
+						if con.Allocates {
+							ce.allocs = true
+						}
 						continue
 					}
-					ce.wild = true
+					if con.CallsBack && len(con.Modifies) == 0 {
+						continue // the closures it is given are accounted for at their MakeClosure
+					}
+					// modifies lists made only of ghost variables and elems(x) of statically typed arguments are translatable
+					okAll := true
+					for _, m := range con.Modifies {
+						m = strings.TrimSpace(m)
+						if srt, isGhost := g.P.cs.Ghosts[m]; isGhost {
+							ce.heaps[m] = srt
+							continue
+						}
+						if strings.HasPrefix(m, "elems(") && strings.HasSuffix(m, ")") {
+							an := strings.TrimSuffix(strings.TrimPrefix(m, "elems("), ")")
+							found := false
+							names := ci.formals
+							if len(con.Params) > 0 {
+								names = con.Params
+							}
+							for ai, f := range names {
+								if f == an && ai < len(x.Common().Args)+1 {
+									var at types.Type
+									if x.Common().IsInvoke() {
+										if ai == 0 {
+											continue
+										}
+										at = x.Common().Args[ai-1].Type()
+									} else if ai < len(x.Common().Args) {
+										at = x.Common().Args[ai].Type()
+									}
+									if st, ok := at.Underlying().(*types.Slice); ok {
+										if _, isSt := structOf(st.Elem()); !isSt {
+											h, es := g.elemHeap(st.Elem())
+											ce.heaps[h] = "(Array Int (Array Int " + es + "))"
+											found = true
+										}
+									}
+								}
+							}
+							if found {
+								continue
+							}
+						}
+						okAll = false
+					}
+					if !okAll {
+						ce.wild = true
+					}
 					continue
 				}
 				if ci.pkg != nil && !isModulePkg(ci.pkg) && purePkgs[ci.pkg.Name()] && ci.kind == "static" {
